@@ -271,41 +271,44 @@ Definition send_waiting (g : cfg) (now : Z) (s : server) (c : conn) : server * c
          end
   else (s, c1, o1).
 
-(* ---- handleTimeouts *)
+(* ---- handleTimeouts: four consecutive blocks of the C function *)
+Definition tmo_t3 (g : cfg) (now : Z) (c : conn) : conn * list obs :=
+  if wtest c then (c, [])
+  else
+    let c0 := if nextT3 c >? now + c_t3 g * 1000 then c <| nextT3 := now + c_t3 g * 1000 |> else c in
+    if now >? nextT3 c0 then
+      let '(r, o) := wr c0 u_testfr_act in
+      let cx := if r <? 0 then c0 <| running := false |> else c0 in
+      (cx <| wtest := true |> <| nextTest := now + c_t1 g * 1000 |>, o)
+    else (c0, []).
+
+Definition tmo_test (g : cfg) (now : Z) (c : conn) : conn * bool :=
+  if wtest c then
+    let cy := if nextTest c >? now + c_t1 g * 1000 then c <| nextTest := now + c_t1 g * 1000 |> else c in
+    (cy, negb (now >? nextTest cy))
+  else (c, true).
+
+Definition tmo_t2 (g : cfg) (now : Z) (c : conn) : conn * list obs :=
+  if 0 <? unconf c then
+    let cz := if negb (lastconf c =? NOTIME) && (lastconf c >? now) then c <| lastconf := now |> else c in
+    if negb (lastconf cz =? NOTIME) && (now >? lastconf cz) && (now - lastconf cz >=? c_t2 g * 1000) then
+      send_s_raw (cz <| lastconf := now |> <| unconf := 0 |> <| t2trig := false |>)
+    else (cz, [])
+  else (c, []).
+
+Definition tmo_t1 (g : cfg) (now : Z) (c : conn) : conn * bool :=
+  match kbuf c with
+  | [] => (c, true)
+  | e :: r =>
+    let e' := if k_time e >? now then {| k_ack := k_ack e; k_time := now; k_entry := k_entry e |} else e in
+    (c <| kbuf := e' :: r |>, negb ((now >? k_time e') && (now - k_time e' >=? c_t1 g * 1000)))
+  end.
+
 Definition handle_timeouts (g : cfg) (now : Z) (c : conn) : conn * bool * list obs :=
-  (* T3 *)
-  let '(c1, o1) :=
-    if wtest c then (c, [])
-    else
-      let c0 := if nextT3 c >? now + c_t3 g * 1000 then c <| nextT3 := now + c_t3 g * 1000 |> else c in
-      if now >? nextT3 c0 then
-        let '(r, o) := wr c0 u_testfr_act in
-        let cx := if r <? 0 then c0 <| running := false |> else c0 in
-        (cx <| wtest := true |> <| nextTest := now + c_t1 g * 1000 |>, o)
-      else (c0, []) in
-  (* TESTFR con timeout *)
-  let '(c2, ok2) :=
-    if wtest c1 then
-      let cy := if nextTest c1 >? now + c_t1 g * 1000 then c1 <| nextTest := now + c_t1 g * 1000 |> else c1 in
-      (cy, negb (now >? nextTest cy))
-    else (c1, true) in
-  (* t2 *)
-  let '(c3, o3) :=
-    if 0 <? unconf c2 then
-      let cz := if negb (lastconf c2 =? NOTIME) && (lastconf c2 >? now) then c2 <| lastconf := now |> else c2 in
-      if negb (lastconf cz =? NOTIME) && (now >? lastconf cz) && (now - lastconf cz >=? c_t2 g * 1000) then
-        send_s_raw (cz <| lastconf := now |> <| unconf := 0 |> <| t2trig := false |>)
-      else (cz, [])
-    else (c2, []) in
-  (* t1 on the oldest sent I-frame *)
-  let '(c4, ok4) :=
-    match kbuf c3 with
-    | [] => (c3, true)
-    | e :: r =>
-      let e' := if k_time e >? now then {| k_ack := k_ack e; k_time := now; k_entry := k_entry e |} else e in
-      let cq := c3 <| kbuf := e' :: r |> in
-      (cq, negb ((now >? k_time e') && (now - k_time e' >=? c_t1 g * 1000)))
-    end in
+  let '(c1, o1) := tmo_t3 g now c in
+  let '(c2, ok2) := tmo_test g now c1 in
+  let '(c3, o3) := tmo_t2 g now c2 in
+  let '(c4, ok4) := tmo_t1 g now c3 in
   (c4, ok2 && ok4, o1 ++ o3).
 
 (* ---- one CS104_Slave_tick *)
